@@ -273,6 +273,10 @@ def gen_index(g, n, form):
             return numpy.int64(i), "numpy integer scalar"     # what argmax()/Generator.integers() hand back
         return i, "int"
     if form == "slice":
+        if g.random() < 0.35:     # open-ended, negative-bound and reverse slices
+            cands = [slice(None, None, -1), slice(None, None, -2), slice(None, 1, -1), slice(-2, None), slice(None, -1), slice(-3, None, 2),
+                     slice(n - 1, None, -2), slice(None, None, 2), slice(1, None)]
+            return cands[int(g.integers(len(cands)))], "open-ended or reverse slice"
         a = int(g.integers(0, n)); b = int(g.integers(a, n + 1)); st = int(g.choice([1, 1, 2]))
         return slice(a, b, st), "slice"
     if form == "mask":
